@@ -100,7 +100,7 @@ def _validate_logs(ctx, base, label, chunks):
     if n == 0:
         raise vlib.HarnessError("%s: the replayer logged no execution" % label)
     ctx.validate_traces("Trace_IniCsv", "Trace_IniCsv", files, label=label, timeout=ctx.pick(900, 5400), parallel=len(files))
-    ctx.evaluations += n
+    ctx.count(evaluations=n)
     ctx.engines.append("%s: %d executions of the real code (%d events) logged by the replayer, validated by TLC" % (label, sessions, n))
     for f in files:
         if os.path.exists(f):
